@@ -175,10 +175,10 @@ def negative_case(spec):
         if p.rc == 0:
             v.append(viol("accepted-corruption:" + field, "--verify accepted a corrupted chain (%s; coin=%s start=%s); final files: %s" % (where, coin, start, fin)))
         else:
-            m = ERR_RE.search(p.err)
-            if m and int(m.group(1)) != h:
-                v.append(viol("wrong-height:" + field, "corruption at %s reported at height %s: %s" % (where, m.group(1), p.err[-200:].replace("\n", " | "))))
-            if not m:
+            m = harness.reported_error_height(p.err)
+            if m is not None and m != h:
+                v.append(viol("wrong-height:" + field, "corruption at %s reported at height %s: %s" % (where, m, p.err[-200:].replace("\n", " | "))))
+            if m is None:
                 counters["rejected_without_error_line"] = counters.get("rejected_without_error_line", 0) + 1
             if fin:
                 v.append(viol("final-output-after-failure:" + field, "run failed (%s) but final-named files exist: %s" % (where, fin)))
@@ -221,10 +221,10 @@ def genesis_case(spec):
     dump = harness.fresh(os.path.join(work, "o"))
     p = harness.run_cb(binary, d, coin, "csvdump", dump, None, None, verify=True)
     fin = final_named(dump)
-    m = ERR_RE.search(p.err)
+    m = harness.reported_error_height(p.err)
     if p.rc == 0:
         v.append(viol("accepted-wrong-genesis", "--verify accepted a chain whose block 0 is not the %s genesis block (block 0 = %s)" % (coin, chain[0][1].hash_hex)))
-    elif (m and int(m.group(1)) != 0) or fin:
+    elif (m is not None and m != 0) or fin:
         v.append(viol("wrong-genesis-misreported", "wrong genesis: %s; final files %s" % (p.err[-200:], fin)))
     # the same chain without --verify and from -s 1 with --verify is fine
     dump = harness.fresh(os.path.join(work, "o"))
